@@ -234,7 +234,12 @@ class ExpressionParser:
             expected = self.check(_FIRST_EXP)
             right = None
             if expected:
-                right = self.parse_mult()
+                # Division is not associative: `a / b * c` is `(a / b) * c`, so only
+                # a multiplication may take the rest of the chain as its right side.
+                if opType == TOKEN_TYPES.Divide:
+                    right = self.parse_exponent()
+                else:
+                    right = self.parse_mult()
 
             if not expected or right is None:
                 assert self._all_tokens is not None
